@@ -894,6 +894,7 @@ func main() {
 	oracleOut := flag.String("oracle", "", "output Lean file: translated oracle kernels")
 	txnOut := flag.String("txn", "", "output Lean file: translated transaction decision logic")
 	wmOut := flag.String("wm", "", "output Lean file: translated watermark message handler")
+	levelOut := flag.String("level", "", "output Lean file: translated discardStaleEntries")
 	flag.Parse()
 	if *locktable != "" {
 		genLockTable(*repo, *locktable)
@@ -909,6 +910,9 @@ func main() {
 	}
 	if *wmOut != "" {
 		genWM(*repo, *wmOut)
+	}
+	if *levelOut != "" {
+		genLevel(*repo, *levelOut)
 	}
 	if *skeleton != "" {
 		genSkeleton(*repo, *skeleton)
